@@ -286,6 +286,86 @@ func runC01(c *kit.Ctx) {
 		}
 	}
 
+
+	// ---------- stalled peer: one consumer stops reading (its backlog passes the limit, it is dropped from at key frames);
+	// the healthy consumers attached next to it must still receive every packet
+	nstall := c.Pick(6, 120)
+	for si := 0; si < nstall; si++ {
+		if !c.Mine(si) {
+			continue
+		}
+		rng := c.SubRng("c01stall", si)
+		n := 1300 + rng.Intn(600)
+		gop := 20 + rng.Intn(200)
+		c.Pre(fmt.Sprintf("C01 stalled-peer %d", si))
+		s := c01Stream()
+		blocked := &kit.RecConsumer{Block: make(chan struct{})}
+		nh := 1 + rng.Intn(8)
+		healthy := make([]*kit.RecConsumer, nh)
+		// attach order varies: the stalled one first, last or in the middle (sync.Map iteration order is random anyway)
+		pos := rng.Intn(nh + 1)
+		for k := 0; k <= nh; k++ {
+			if k == pos {
+				s.StartConsumeNoGopCache(blocked, media.RTPPacket, "blocked")
+			}
+			if k < nh {
+				healthy[k] = &kit.RecConsumer{}
+				s.StartConsumeNoGopCache(healthy[k], media.RTPPacket, "healthy")
+			}
+		}
+		pkts := make([]*rtp.Packet, n)
+		for i := 0; i < n; i++ {
+			typ := byte(1)
+			if i%gop == 0 {
+				typ = 5
+			}
+			pkts[i] = kit.MakeRTP(kit.ChVideo, 96, true, uint16(i), uint32(i)*3000+1, uint32(si)+0x20000, kit.H264NAL(2, typ, 40, uint64(i)))
+			s.WriteRtpPacket(pkts[i])
+			if i%100 == 99 { // relative speed: let the healthy consumers keep up
+				waitUntil(func() bool {
+					for _, h := range healthy {
+						if h.Len() < i-300 {
+							return false
+						}
+					}
+					return true
+				}, watch)
+			}
+		}
+		ok := waitUntil(func() bool {
+			for _, h := range healthy {
+				if h.Len() < n {
+					it := h.Items()
+					if len(it) == 0 || it[len(it)-1].Pack != pkts[n-1] {
+						return false
+					}
+				}
+			}
+			return true
+		}, watch)
+		close(blocked.Block)
+		s.Close()
+		c.Eval(nh)
+		c.Distinct(fmt.Sprintf("stalled-peer/healthy=%d/gop=%d", nh, gop/50*50))
+		if !ok {
+			c.Inconclusive("stalled-peer: last packet not delivered to every healthy consumer")
+			continue
+		}
+		for k, h := range healthy {
+			it := h.Items()
+			exact := len(it) == n
+			for i := 0; exact && i < n; i++ {
+				exact = it[i].Pack == pkts[i]
+			}
+			if !exact {
+				c.Violation("C01:healthy-consumer-misses-packets-while-a-peer-is-dropped-for-backlog", map[string]interface{}{
+					"case": si, "consumer": k, "healthy_consumers": nh, "published": n, "received": len(it), "gop": gop})
+				break
+			}
+		}
+		c.Count("stalled_peer_scenarios", 1)
+	}
+
 	// ---------- racy: publisher × attach × detach with perturbation; interval oracle on the logical clock
 	nrace := c.Pick(60, 2000)
 	for ri := 0; ri < nrace; ri++ {
